@@ -55,10 +55,17 @@ func saveFileExtensionHandlers(handlers map[string]string) error {
 	if err != nil {
 		return fmt.Errorf("couldn't json-encode file extension handlers: %w", err)
 	}
-	verifcrash.TornWrite("extensions/write", octosqlFileExtensionHandlersFile, data)
-	if err := os.WriteFile(octosqlFileExtensionHandlersFile, data, 0644); err != nil {
+	// Write to a temporary file and rename it into place, so that the handlers file,
+	// which is read on every start, is never seen partially written.
+	tmpFile := octosqlFileExtensionHandlersFile + ".tmp"
+	verifcrash.TornWrite("extensions/write", tmpFile, data)
+	if err := os.WriteFile(tmpFile, data, 0644); err != nil {
 		return fmt.Errorf("couldn't write file extension handlers to file: %w", err)
 	}
 	verifcrash.Point("extensions/after-write")
+	if err := os.Rename(tmpFile, octosqlFileExtensionHandlersFile); err != nil {
+		return fmt.Errorf("couldn't move file extension handlers file into place: %w", err)
+	}
+	verifcrash.Point("extensions/after-rename")
 	return nil
 }
